@@ -19,7 +19,7 @@ theorem ite_gt_assoc (a b c : Int) :
     (if a > (if b > c then b else c) then a else (if b > c then b else c)) := by
   split <;> split <;> (try split) <;> omega
 
-theorem minItem_lawful : Lawful minItem where
+theorem minItem_lawful (ty : IntTy) : Lawful (minItem ty) where
   op_assoc := ite_lt_assoc
   act_op := by intro m a b; rfl
   pa_op := by intro x a b; rfl
@@ -36,7 +36,7 @@ theorem minItem_lawful : Lawful minItem where
   push_val2 := by intro p l r; rfl
   push_pa2 := by intro p l r a; rfl
 
-theorem maxItem_lawful : Lawful maxItem where
+theorem maxItem_lawful (ty : IntTy) : Lawful (maxItem ty) where
   op_assoc := ite_gt_assoc
   act_op := by intro m a b; rfl
   pa_op := by intro x a b; rfl
@@ -70,7 +70,7 @@ theorem sumItem_lawful : Lawful sumItem where
   push_val2 := by intro p l r; rfl
   push_pa2 := by intro p l r a; rfl
 
-theorem minAddItem_lawful : Lawful minAddItem where
+theorem minAddItem_lawful (ty : IntTy) : Lawful (minAddItem ty) where
   op_assoc := ite_lt_assoc
   act_op := by
     intro m a b
@@ -93,7 +93,7 @@ theorem minAddItem_lawful : Lawful minAddItem where
   push_val2 := by intro p l r; rfl
   push_pa2 := by intro p l r a; show a + (r.md + p.md) = a + r.md + p.md; omega
 
-theorem maxAddItem_lawful : Lawful maxAddItem where
+theorem maxAddItem_lawful (ty : IntTy) : Lawful (maxAddItem ty) where
   op_assoc := ite_gt_assoc
   act_op := by
     intro m a b
@@ -161,6 +161,75 @@ theorem prodItem_lawful {T U M A B : Type} {I : Item T M A} {J : Item U M B} (LI
   push_pa1 := by intro p l r a; simp [prodItem, LI.push_pa1, LJ.push_pa1]
   push_val2 := by intro p l r; simp [prodItem, LI.push_val2, LJ.push_val2]
   push_pa2 := by intro p l r a; simp [prodItem, LI.push_pa2, LJ.push_pa2]
+
+/-- running an item together with the overflow flag changes nothing observable: every law is the law of `I` -/
+theorem guardItem_lawful {T M A : Type} {I : Item T M A} (L : Lawful I) (G : Guard T M) : Lawful (guardItem I G) where
+  op_assoc := L.op_assoc
+  act_op := L.act_op
+  pa_op := by intro x a b; exact L.pa_op x.1 a b
+  val_merge := by intro x y; exact L.val_merge x.1 y.1
+  pa_merge := by intro x y a; exact L.pa_merge x.1 y.1 a
+  val_update := by intro p x y; exact L.val_update p.1 x.1 y.1
+  pa_update := by intro p x y a; exact L.pa_update p.1 x.1 y.1 a
+  val_modify := by intro x m; exact L.val_modify x.1 m
+  pa_modify := by intro x m a; exact L.pa_modify x.1 m a
+  push_val0 := by intro p l r; exact L.push_val0 p.1 l.1 r.1
+  push_pa0 := by intro p l r a; exact L.push_pa0 p.1 l.1 r.1 a
+  push_val1 := by intro p l r; exact L.push_val1 p.1 l.1 r.1
+  push_pa1 := by intro p l r a; exact L.push_pa1 p.1 l.1 r.1 a
+  push_val2 := by intro p l r; exact L.push_val2 p.1 l.1 r.1
+  push_pa2 := by intro p l r a; exact L.push_pa2 p.1 l.1 r.1 a
+
+/-! ### the guarded item against the item itself, on the plain-list specification -/
+
+theorem guard_foldl_fst {T M A : Type} (I : Item T M A) (G : Guard T M) (ys : List (T × Bool)) (x : T × Bool) :
+    (ys.foldl (guardItem I G).merge x).1 = (ys.map Prod.fst).foldl I.merge x.1 := by
+  induction ys generalizing x with
+  | nil => rfl
+  | cons y ys ih => simp only [List.foldl_cons, List.map_cons]; rw [ih]; rfl
+
+theorem guard_foldr_fst {T M A : Type} (I : Item T M A) (G : Guard T M) (ys : List (T × Bool)) (x : T × Bool) :
+    (ys.foldr (guardItem I G).merge x).1 = (ys.map Prod.fst).foldr I.merge x.1 := by
+  induction ys with
+  | nil => rfl
+  | cons y ys ih => simp only [List.foldr_cons, List.map_cons]; rw [← ih]; rfl
+
+/-- the specification's `ask` for the guarded item is that of the item itself on the first components -/
+theorem guard_spec_ask {T M A : Type} (I : Item T M A) (G : Guard T M) (zs : List (T × Bool)) (l r : Nat) :
+    Spec.ask (guardItem I G) zs l r = Spec.ask I (zs.map Prod.fst) l r := by
+  unfold Spec.ask
+  by_cases h1 : l ≤ r
+  · by_cases h2 : r < zs.length
+    · have h2' : r < (zs.map Prod.fst).length := by simpa using h2
+      simp only [h1, h2, h2', not_true_eq_false, dite_false]
+      show Except.ok (I.val ((slice zs (l + 1) (r + 1)).foldl (guardItem I G).merge _).1) = _
+      rw [guard_foldl_fst, slice_map]
+      simp
+    · simp [h1, h2]
+  · simp [h1]
+
+/-- …and so is its range modification (first components of the new list) -/
+theorem guard_spec_modify {T M A : Type} (I : Item T M A) (G : Guard T M) (zs : List (T × Bool)) (l r : Nat) (m : M) :
+    (match Spec.modify (guardItem I G) zs l r m with
+     | .ok zs' => Except.ok (zs'.map Prod.fst)
+     | .error e => .error e) = Spec.modify I (zs.map Prod.fst) l r m := by
+  unfold Spec.modify
+  by_cases h1 : l ≤ r
+  · by_cases h2 : r < zs.length
+    · have h2' : r < (zs.map Prod.fst).length := by simpa using h2
+      simp only [h1, h2, h2', not_true_eq_false, if_false]
+      simp only [mapRange, slice_map, List.map_append, List.map_take, List.map_drop, List.map_map]
+      rfl
+    · simp [h1, h2]
+  · simp [h1]
+
+/-- …and the aggregates the boundary searches are specified with -/
+theorem guard_spec_agg {T M A : Type} (I : Item T M A) (G : Guard T M) (zs : List (T × Bool)) (l r : Nat) :
+    (Spec.aggFwd (guardItem I G) zs l r).1 = Spec.aggFwd I (zs.map Prod.fst) l r ∧
+    (Spec.aggBwd (guardItem I G) zs l r).1 = Spec.aggBwd I (zs.map Prod.fst) l r := by
+  unfold Spec.aggFwd Spec.aggBwd
+  rw [guard_foldl_fst, guard_foldr_fst, slice_map]
+  exact ⟨rfl, rfl⟩
 
 /-! ### `affHash` -/
 
@@ -416,34 +485,53 @@ theorem flipItems_dflt (a : Int × Int) :
 
 /-! ### `Default` is the identity of `merge` (up to the observable value) on the values that occur -/
 
-theorem minItem_dflt_left (a : Int) (h : a ≤ i64Max) : minItem.op (minItem.val minItem.dflt) a = a := by
-  show (if i64Max < a then i64Max else a) = a
+theorem minItem_dflt_left (ty : IntTy) (a : Int) (h : a ≤ ty.maxVal) :
+    (minItem ty).op ((minItem ty).val (minItem ty).dflt) a = a := by
+  show (if ty.maxVal < a then ty.maxVal else a) = a
   rw [if_neg (by omega)]
-theorem minItem_dflt_right (a : Int) (h : a ≤ i64Max) : minItem.op a (minItem.val minItem.dflt) = a := by
-  show (if a < i64Max then a else i64Max) = a
+theorem minItem_dflt_right (ty : IntTy) (a : Int) (h : a ≤ ty.maxVal) :
+    (minItem ty).op a ((minItem ty).val (minItem ty).dflt) = a := by
+  show (if a < ty.maxVal then a else ty.maxVal) = a
   split <;> omega
-theorem maxItem_dflt_left (a : Int) (h : i64Min ≤ a) : maxItem.op (maxItem.val maxItem.dflt) a = a := by
-  show (if i64Min > a then i64Min else a) = a
+theorem maxItem_dflt_left (ty : IntTy) (a : Int) (h : ty.minVal ≤ a) :
+    (maxItem ty).op ((maxItem ty).val (maxItem ty).dflt) a = a := by
+  show (if ty.minVal > a then ty.minVal else a) = a
   rw [if_neg (by omega)]
-theorem maxItem_dflt_right (a : Int) (h : i64Min ≤ a) : maxItem.op a (maxItem.val maxItem.dflt) = a := by
-  show (if a > i64Min then a else i64Min) = a
+theorem maxItem_dflt_right (ty : IntTy) (a : Int) (h : ty.minVal ≤ a) :
+    (maxItem ty).op a ((maxItem ty).val (maxItem ty).dflt) = a := by
+  show (if a > ty.minVal then a else ty.minVal) = a
   split <;> omega
 theorem sumItem_dflt_left (a : Int) : sumItem.op (sumItem.val sumItem.dflt) a = a := by
   show (0 : Int) + a = a; omega
 theorem sumItem_dflt_right (a : Int) : sumItem.op a (sumItem.val sumItem.dflt) = a := by
   show a + (0 : Int) = a; omega
-theorem minAddItem_dflt_left (a : Int) (h : a ≤ i64Max) : minAddItem.op (minAddItem.val minAddItem.dflt) a = a := by
-  show (if i64Max < a then i64Max else a) = a
+theorem minAddItem_dflt_left (ty : IntTy) (a : Int) (h : a ≤ ty.maxVal) :
+    (minAddItem ty).op ((minAddItem ty).val (minAddItem ty).dflt) a = a := by
+  show (if ty.maxVal < a then ty.maxVal else a) = a
   rw [if_neg (by omega)]
-theorem minAddItem_dflt_right (a : Int) (h : a ≤ i64Max) : minAddItem.op a (minAddItem.val minAddItem.dflt) = a := by
-  show (if a < i64Max then a else i64Max) = a
+theorem minAddItem_dflt_right (ty : IntTy) (a : Int) (h : a ≤ ty.maxVal) :
+    (minAddItem ty).op a ((minAddItem ty).val (minAddItem ty).dflt) = a := by
+  show (if a < ty.maxVal then a else ty.maxVal) = a
   split <;> omega
-theorem maxAddItem_dflt_left (a : Int) (h : i64Min ≤ a) : maxAddItem.op (maxAddItem.val maxAddItem.dflt) a = a := by
-  show (if i64Min > a then i64Min else a) = a
+theorem maxAddItem_dflt_left (ty : IntTy) (a : Int) (h : ty.minVal ≤ a) :
+    (maxAddItem ty).op ((maxAddItem ty).val (maxAddItem ty).dflt) a = a := by
+  show (if ty.minVal > a then ty.minVal else a) = a
   rw [if_neg (by omega)]
-theorem maxAddItem_dflt_right (a : Int) (h : i64Min ≤ a) : maxAddItem.op a (maxAddItem.val maxAddItem.dflt) = a := by
-  show (if a > i64Min then a else i64Min) = a
+theorem maxAddItem_dflt_right (ty : IntTy) (a : Int) (h : ty.minVal ≤ a) :
+    (maxAddItem ty).op a ((maxAddItem ty).val (maxAddItem ty).dflt) = a := by
+  show (if a > ty.minVal then a else ty.minVal) = a
   split <;> omega
+
+/-- the defaults are not identities beyond the type's bounds: `Min` at a narrower `MAX` absorbs larger values
+    (what a wrong `<T as MinMax>::MAX` does to the boundary searches) -/
+theorem minItem_dflt_not_identity (ty : IntTy) (a : Int) (h : ty.maxVal < a) :
+    (minItem ty).op ((minItem ty).val (minItem ty).dflt) a ≠ a := by
+  show (if ty.maxVal < a then ty.maxVal else a) ≠ a
+  rw [if_pos h]; omega
+
+/-- the model's type bounds at `i64` are the literals -/
+theorem i64_bounds : IntTy.i64.maxVal = i64Max ∧ IntTy.i64.minVal = i64Min := by decide
+
 theorem sumAddItem_dflt_left (a : Int × Int) : sumAddItem.op (sumAddItem.val sumAddItem.dflt) a = a := by
   show ((0 : Int) + a.1, (0 : Int) + a.2) = a; simp
 theorem sumAddItem_dflt_right (a : Int × Int) : sumAddItem.op a (sumAddItem.val sumAddItem.dflt) = a := by
